@@ -35,6 +35,7 @@ HFILES = {
     'types': ('types', 'verif_h', [], False),
     'types_flat': ('types', 'verif_h_flat', ['types'], True),
     'encoder': ('encoder', 'verif_h', [], False),
+    'encoder_rmi': ('encoder', 'verif_h_rmi', [], True),
     'decoder': ('decoder', 'verif_h', ['vlq'], False),
     'decoder_seg': ('decoder', 'verif_h_seg', ['vlq', 'decoder'], True),
     'decoder_line': ('decoder', 'verif_h_line', ['vlq', 'decoder'], True),
